@@ -508,7 +508,15 @@ class Interp:
             return Enum('Option', 0)
         if len(segs) >= 2 and segs[-2] == 'Ordering' and segs[-1] in ('Less', 'Equal', 'Greater'):
             return Enum('Ordering', {'Less': -1, 'Equal': 0, 'Greater': 1}[segs[-1]])
-        # named constant of the crate
+        # named constant of the crate: the exact printed name first (nested consts of macro expansions - `BRANCHES` of every
+        # tokio::select! - share their last segments with those of other functions)
+        if t in self.dump.const_inline:
+            return self.eval_const(self.dump.const_inline[t])
+        if t in self.dump.consts:
+            key = ('const', t)
+            if key not in self.ctx.const_cache:
+                self.ctx.const_cache[key] = run_to_end(self.call_fn(self.dump.consts[t], []))
+            return self.ctx.const_cache[key]
         c = self.lookup_const(flat)
         if c is not None:
             return c
@@ -525,11 +533,42 @@ class Interp:
 
     def lookup_const(self, flat):
         segs0 = flat.split('::')
+        # `module::Type::method::{closure#k}..::ITEM` as printed at the use site  <->  `module::<impl at file:l:c: ..>::method::..::ITEM`
+        # as printed at the definition: matched through the self type of that impl block
+        impl_hits = []
+        for table in (self.dump.const_inline, self.dump.consts):
+            for name in table:
+                m = re.match(r'^(?:.*?::)?<impl at ([^:>]+):(\d+):(\d+): [^>]*>::(.*)$', name)
+                if not m or name.split('::')[-1] != segs0[-1]:
+                    continue
+                info = self.src.impl_info(m.group(1), int(m.group(2)), int(m.group(3)))
+                if not info:
+                    continue
+                want = [last_type_name(info[1])] + m.group(4).split('::')
+                if segs0[-len(want):] == want:
+                    impl_hits.append((name, table))
+        if len(impl_hits) == 1:
+            name, table = impl_hits[0]
+            if table is self.dump.const_inline:
+                return self.eval_const(table[name])
+            key = ('const', name)
+            if key not in self.ctx.const_cache:
+                self.ctx.const_cache[key] = run_to_end(self.call_fn(table[name], []))
+            return self.ctx.const_cache[key]
+        if len(impl_hits) > 1:
+            raise Unsupported('constant %s is ambiguous: %s' % (flat, ', '.join(x[0] for x in impl_hits)[:200]))
+        hits = []
         for name, txt in self.dump.const_inline.items():
             ns = name.split('::')
             if ns[-1] == segs0[-1] and '<impl' not in name and (len(segs0) == 1 or len(ns) == 1 or ns[-2] == segs0[-2]
                                                                     or ns[-len(segs0):] == segs0 or segs0[-len(ns):] == ns):
-                return self.eval_const(txt)
+                hits.append((name, txt))
+        if hits:
+            exact = [h for h in hits if h[0].split('::')[-len(segs0):] == segs0]
+            pick = exact or hits
+            if len(set(x[1] for x in pick)) > 1:
+                raise Unsupported('constant %s is ambiguous: %s' % (flat, ', '.join(x[0] for x in pick)[:200]))
+            return self.eval_const(pick[0][1])
         cs = self.dump.consts
         fn = cs.get(flat)
         if fn is None and 'promoted[' in flat:
